@@ -3,7 +3,7 @@
 import sys, os, shutil, json
 prop, n, name, caught_by, vclass = sys.argv[1:6]
 needs = " ".join(sys.argv[6:])
-src = "/tmp/seed-out/%s" % prop
+src = os.environ.get("SEEDSRC", "/tmp/seed-out/%s" % prop)
 dst = "/verif/seeded/%s" % name
 os.makedirs(dst, exist_ok=True)
 shutil.copy("%s/patch%s.diff" % (src, n), dst + "/patch.diff")
